@@ -141,9 +141,13 @@ Fixpoint lead_zeros (f : nat) (xn den j : Z) : Z :=
   | O => j
   | S f => if den <=? xn * 10 then j else lead_zeros f (xn * 10) den (j + 1)
   end.
+(* number of decimal digits of q >= 1, from the binary length (log10 2 ~ 0.30103) and two comparisons *)
+Definition dec_len (q : Z) : Z :=
+  let g := Z.log2 q * 30103 / 100000 in
+  if 10 ^ (g + 1) <=? q then g + 2 else if 10 ^ g <=? q then g + 1 else g.
 (* dp with 10^(dp-1) <= xn/den < 10^dp *)
 Definition dec_exp (xn den : Z) : Z :=
-  if den <=? xn then Z.of_nat (String.length (digits (xn / den)))
+  if den <=? xn then dec_len (xn / den)
   else - lead_zeros (S (Z.to_nat (Z.log2 den))) xn den 0.
 
 Fixpoint strip_zeros (f : nat) (D P : Z) : Z * Z :=
@@ -163,44 +167,58 @@ Definition interval (m e : Z) : ival :=
      iv_den := 2 ^ s;
      iv_incl := Z.even m |}.
 
-(* is lower <= D * 10^P <= upper (strict when the mantissa is odd) *)
+(* is lower <= D * A / B <= upper (strict when the mantissa is odd); A / B = 10^P *)
+Definition in_interval_ab (iv : ival) (D A B : Z) : bool :=
+  let d := D * A * iv_den iv in
+  if iv_incl iv then (iv_ln iv * B <=? d) && (d <=? iv_un iv * B)
+  else (iv_ln iv * B <? d) && (d <? iv_un iv * B).
 Definition in_interval (iv : ival) (D P : Z) : bool :=
-  let A := 10 ^ Z.max P 0 in
-  let B := 10 ^ Z.max (- P) 0 in
-  if iv_incl iv then (iv_ln iv * B <=? D * A * iv_den iv) && (D * A * iv_den iv <=? iv_un iv * B)
-  else (iv_ln iv * B <? D * A * iv_den iv) && (D * A * iv_den iv <? iv_un iv * B).
+  in_interval_ab iv D (10 ^ Z.max P 0) (10 ^ Z.max (- P) 0).
 
-(* k = number of significant digits tried; P = dp - k is the weight of the last one *)
-Fixpoint search (f : nat) (iv : ival) (dp k : Z) : option (Z * Z) :=
+Definition in_bounds (incl : bool) (lb ub d : Z) : bool :=
+  if incl then (lb <=? d) && (d <=? ub) else (lb <? d) && (d <? ub).
+
+(* one digit position after the other, most significant first: P is the weight of the last digit kept.
+   With A = 10^max(P,0) and B = 10^max(-P,0):  xb = xn*B, lb = ln*B, ub = un*B, half = A*den travel along
+   (one division and one multiplication of big numbers per position); t is the float cut at that position *)
+Fixpoint search (f : nat) (incl : bool) (P xb lb ub half : Z) : option (Z * Z) :=
   match f with
   | O => None
   | S f =>
-    let P := dp - k in
-    let A := 10 ^ Z.max P 0 in
-    let B := 10 ^ Z.max (- P) 0 in
-    let t := (iv_xn iv * B) / (iv_den iv * A) in
-    let okdown := in_interval iv t P in
-    let okup := in_interval iv (t + 1) P in
-    let rem2 := 2 * (iv_xn iv * B - t * A * iv_den iv) in
-    let half := A * iv_den iv in
+    let t := xb / half in
+    let d := t * half in
+    let okdown := in_bounds incl lb ub d in
+    let okup := in_bounds incl lb ub (d + half) in
+    let rem2 := 2 * (xb - d) in
     let up_nearer := (half <? rem2) || ((half =? rem2) && Z.odd t) in
     if okdown && okup then Some ((if up_nearer then t + 1 else t), P)
     else if okdown then Some (t, P)
     else if okup then Some (t + 1, P)
-    else search f iv dp (k + 1)
+    else if 1 <=? P then search f incl (P - 1) xb lb ub (half / 10)
+    else search f incl (P - 1) (xb * 10) (lb * 10) (ub * 10) half
   end.
+
+(* the exact expansion xn * 5^s / 10^s *)
+Definition exact_dec (m e : Z) : Z * Z :=
+  let s := Z.max 0 (2 - e) in (iv_xn (interval m e) * 5 ^ s, - s).
 
 Definition shortest (m e : Z) : Z * Z :=
   let iv := interval m e in
-  match search 17 iv (dec_exp (iv_xn iv) (iv_den iv)) 1 with
-  | Some (D, P) => strip_zeros 20 D P
-  | None =>    (* never reached for a float64 (17 digits always suffice): the exact expansion *)
-    let s := Z.max 0 (2 - e) in strip_zeros (Z.to_nat s + 400) (iv_xn iv * 5 ^ s) (- s)
-  end.
+  let P := dec_exp (iv_xn iv) (iv_den iv) - 1 in
+  let A := 10 ^ Z.max P 0 in
+  let B := 10 ^ Z.max (- P) 0 in
+  let c := match search 17 (iv_incl iv) P (iv_xn iv * B) (iv_ln iv * B) (iv_un iv * B) (A * iv_den iv) with
+           | Some (D, P') => strip_zeros 20 D P'
+           | None => exact_dec m e
+           end in
+  (* never the second branch for a float64 (17 digits always suffice, and what the search returns lies in the interval) *)
+  if in_interval iv (fst c) (snd c) then c else exact_dec m e.
 
 (* 'f' layout of D * 10^P *)
 Definition fixed_of_dec (neg : bool) (D P : Z) : string :=
-  if 0 <=? P then fixed_text neg (D * 10 ^ P) 0 else fixed_text neg D (Z.to_nat (- P)).
+  if 0 <=? P then
+    (if D =? 0 then fixed_text neg 0 0 else (sign_text neg ++ digits D ++ zeros (Z.to_nat P))%string)
+  else fixed_text neg D (Z.to_nat (- P)).
 
 Definition special_text (x : fl) : string :=
   match x with
